@@ -1,7 +1,7 @@
 (* C20 — theorems (statements in full; proofs in ProofsA..D). The model follows /repo after the
    nine C20 fix: commits (025b717 6c29d69 941ab7d a355167 e099dce 1b429d0 0a72c3c c72865a 6e820e7). *)
 From Coq Require Import List NArith ZArith Bool Sorting.Sorted.
-From LTV.C20 Require Import ParamsGen Model ProofsA ProofsB ProofsC ProofsD ProofsE ProofsG ProofsH Fetcher FetcherC08 FetcherX.
+From LTV.C20 Require Import ParamsGen Model ProofsA ProofsB ProofsC ProofsD ProofsE ProofsG ProofsH Fetcher FetcherX.
 Import ListNotations.
 Local Open Scope N_scope.
 
@@ -157,13 +157,13 @@ Theorem magnet_same_torrent : forall (H : list N -> list N) orig ops d,
 Proof. exact Fetcher.magnet_same_torrent. Qed.
 Print Assumptions magnet_same_torrent.
 
-(* ... and the Download that download_add builds from the fetched metadata (C08's loader model) is
-   the one the original .torrent gives *)
-Theorem magnet_same_download : forall (H : list N -> list N) orig ops d,
+(* ... and whatever the loader (download_add; any instance, e.g. C08's loader model partially applied,
+   without importing that development), it gives the same result for the fetched metadata as for the original *)
+Theorem magnet_same_download : forall (A : Type) (load : list N -> A) (H : list N -> list N) orig ops d,
   (forall x, H x = H orig -> x = orig) ->
   f_done (frun H (H orig) ops) = Some d ->
-  LTV.C08.Model.load_bytes H (wrap_info d) = LTV.C08.Model.load_bytes H (wrap_info orig).
-Proof. exact FetcherC08.magnet_same_download. Qed.
+  load (wrap_info d) = load (wrap_info orig).
+Proof. exact Fetcher.magnet_same_download_generic. Qed.
 Print Assumptions magnet_same_download.
 
 (* the first-peer-metadata_size-wins mechanism, as a statement of what happens (not a violation) *)
